@@ -584,8 +584,8 @@ HEAVY = {"bignSign", "bignSign2", "bignKeypairGen", "bignPubkeyCalc", "bignDH", 
 _BAKE_ENV = {}
 
 
-def _bake_run(proto, side, bad=False, longcert=False):
-    name = "bake%sRun%s" % (proto, side) + (":badtag" if bad else "") + (":longcert" if longcert else "")
+def _bake_run(proto, side, bad=False, longcert=False, readerr=False):
+    name = "bake%sRun%s" % (proto, side) + (":badtag" if bad else "") + (":longcert" if longcert else "") + (":readerr" if readerr else "")
 
     def build(lib, rng, size):
         from . import c04
@@ -598,8 +598,8 @@ def _bake_run(proto, side, bad=False, longcert=False):
         n = rng.getrandbits(16)
         mine = 0 if side == "A" else 1
         c = Call(name, lambda thunk: thunk())
-        c.expect_ok = not bad
-        c.exit_class = "bad-peer-tag" if bad else "ok"
+        c.expect_ok = not (bad or readerr)
+        c.exit_class = "bad-peer-tag" if bad else "read-error-inside-a-long-message" if readerr else "ok"
         cur = env.curve(l)
         for v in c.v:
             cfg = c04.base_cfg(proto, l, 1, 1, n, ks=rng.getrandbits(30))
@@ -622,6 +622,19 @@ def _bake_run(proto, side, bad=False, longcert=False):
             for m in replies:
                 pipe.inbox[mine].put(m)
             pipe.inbox[mine].put(c04._EOF)
+            if readerr:
+                # the channel breaks while the last (long) message of the peer is being read: its second 512-octet read
+                # fails with a file error (not ERR_MAX)
+                nfull = sum((len(m) + 511) // 512 if len(m) > 512 else 1 for m in replies[:-1])
+                state = {"n": 0}
+                plain_read = pipe.read
+
+                def broken_read(sd, count, state=state, plain_read=plain_read, nfull=nfull):
+                    state["n"] += 1
+                    if state["n"] == nfull + 2:
+                        return None, c04.errcode("ERR_FILE_READ")
+                    return plain_read(sd, count)
+                pipe.read = broken_read
             fn = getattr(lib, "bake%sRun%s" % (proto, side))
             if proto == "BMQV":
                 a = [key, me.params, me.settings, me.privkey, me.cert, me.peer_cert, c04.READ_ADDR, c04.WRITE_ADDR, f]
@@ -666,6 +679,8 @@ for _pr in ("BMQV", "BSTS", "BPACE"):
 for _sd in ("A", "B"):
     BUILDERS["bakeBSTSRun%s:longcert" % _sd] = _bake_run("BSTS", _sd, False, True)
     HEAVY.add("bakeBSTSRun%s:longcert" % _sd)
+    BUILDERS["bakeBSTSRun%s:longcert:readerr" % _sd] = _bake_run("BSTS", _sd, False, True, True)
+    HEAVY.add("bakeBSTSRun%s:longcert:readerr" % _sd)
 
 
 # ===============================================================================================================
